@@ -176,6 +176,8 @@ fn parse_leaf(stream: &[Token]) -> Result<(&[Token], ConditionValue), ConditionP
             Token::True => return Ok((rest, 1)),
             Token::LiteralInt(v) => return Ok((rest, *v)),
             Token::LiteralIntUnsigned32(v) => return Ok((rest, *v)),
+            Token::LiteralIntUnsigned64(v) => return Ok((rest, *v)),
+            Token::LiteralIntSigned64(v) => return Ok((rest, *v as u64)),
             Token::LeftParen => {
                 let (rest, inner) = parse_p12(rest)?;
                 if let Some((Token::RightParen, rest)) = rest.split_first() {
